@@ -65,9 +65,10 @@ Theorem C10_lex_kotlin :
 Proof. exact Proofs.C10.lex_kotlin. Qed.
 Print Assumptions C10_lex_kotlin.
 
-(* Scala: the same for every admissible package name (made of [A-Za-z0-9_.+-]), with or without a dot: since the
-   /repo fix of C10-scala-package-brace the closing brace of the package object / package block is printed exactly
-   when its opener is, so the statement has no carve-out (the empty package is begin_file's error: no text) *)
+(* Scala: the same for every admissible package name (made of [A-Za-z0-9_.+-]), with or without a dot: the package
+   object / package block is opened (named by the last segment of the package name) and closed whatever the name
+   (/repo fixes of C10-scala-package-brace and of C10-scala-toplevel-alias), so the statement has no carve-out (the
+   empty package is begin_file's error: no text) *)
 Theorem C10_lex_scala :
   forall (uc : unicode) (cfg : sc_config) (pd : parsed) (text : str),
     Proofs.C10_SC.c10_sc_cfg_ok cfg = true -> dom_C10 CSC pd = true ->
@@ -166,18 +167,21 @@ Print Assumptions C10_kw_python.
 
 (* ---------------------------------------------------------------- regression pin of the repaired class *)
 (* C10-scala-package-brace (fixed in /repo): under the dotless package `onepassword` the former witness
-   `struct A { x: String }` is in no finding class and gives exactly the documented case class at top level - no
-   closing brace after it - which is balanced; a program that fills both the package object (unsigned aliases, an
-   alias) and the package (a struct, an enum) is balanced as well *)
+   `struct A { x: String }` is in no finding class and gives exactly `package onepassword {`, the documented case class,
+   `}` - the bytes since the /repo fix of C10-scala-toplevel-alias, which opens the blocks under a dotless name as well;
+   between the two fixes the case class stood at top level with no brace at all - which is balanced; a program that
+   fills both the package object (unsigned aliases, an alias: inside `package object onepassword {`) and the package
+   (a struct, an enum) is balanced as well *)
 Theorem C10_scala_package_brace_fixed :
   Proofs.C10_SC.c10_sc_cfg_ok Proofs.C10.w_brace_cfg = true /\ contains_char sc_ch_dot (sc_package Proofs.C10.w_brace_cfg) = false /\
   dom_C10 CSC Proofs.C10.w_brace_pd = true /\ c10_has_items Proofs.C10.w_brace_pd = true /\
   known_C10 CSC (sc_package Proofs.C10.w_brace_cfg) Proofs.C10.w_brace_pd = [] /\
   sc_generate uc_exec Proofs.C10.w_brace_cfg Proofs.C10.w_brace_pd = Ok Proofs.C10.w_brace_text /\
-  contains_sub (lit "case class A (") Proofs.C10.w_brace_text = true /\ contains_sub (lit "}") Proofs.C10.w_brace_text = false /\
+  contains_sub (lit "case class A (") Proofs.C10.w_brace_text = true /\ contains_sub (lit "package onepassword {") Proofs.C10.w_brace_text = true /\
   good_C10_lex CSC Proofs.C10.w_brace_text = true /\
   exists text, dom_C10 CSC Proofs.C10.w_prog = true /\ known_C10 CSC (sc_package Proofs.C10.w_brace_cfg) Proofs.C10.w_prog = [] /\
     sc_generate uc_exec Proofs.C10.w_brace_cfg Proofs.C10.w_prog = Ok text /\ contains_sub (lit "type ULong = Int") text = true /\
+    contains_sub (lit "package object onepassword {") text = true /\
     contains_sub (lit "case class A (") text = true /\ good_C10_lex CSC text = true.
 Proof. exact Proofs.C10.scala_package_brace_fixed. Qed.
 Print Assumptions C10_scala_package_brace_fixed.
@@ -958,8 +962,8 @@ Proof. exact Proofs.C10_SCGrammar.sc_render_decl_gram. Qed.
 Print Assumptions C10_sc_layout_pieces.
 
 (* Layout layer, whole texts: the concatenated text of ANY list of well-formed class / enum declarations is accepted as a
-   compilation unit with at least that many definitions (they stand at the top level: the form written under a package name
-   without a dot) ... *)
+   compilation unit with at least that many definitions (they stand at the top level; the generator wrote this form under a
+   package name without a dot until the /repo fix of C10-scala-toplevel-alias) ... *)
 Theorem C10_sc_layout_grammar_top :
   forall ds : list sc_decl, Forall (fun d => Proofs.C10_SCGrammar.c10_scg_decl_ok d /\ Proofs.C10_SCGrammar.decl_top d = true) ds ->
     exists n : nat, c10_sc_recognise (List.concat (map sc_render_decl ds)) = Some n /\ (List.length ds <= n)%nat.
@@ -981,6 +985,21 @@ Theorem C10_sc_layout_grammar :
 Proof. exact Proofs.C10_SCGrammarFile.sc_packaged_decls_recognised. Qed.
 Print Assumptions C10_sc_layout_grammar.
 
+(* ... and under a package name c without a dot (scala.rs after the /repo fix of C10-scala-toplevel-alias): no package clause, the
+   package object c with ANY list of well-formed aliases / helper-alias blocks, the packaging c with ANY list of well-formed classes
+   and enums. *)
+Theorem C10_sc_layout_grammar_dotless :
+  forall (last : str) (das dps : list sc_decl),
+    Proofs.C10_SCGrammar.gname last ->
+    Forall (fun d => Proofs.C10_SCGrammar.c10_scg_decl_ok d /\ Proofs.C10_SCGrammar.decl_top d = false) das ->
+    Forall (fun d => Proofs.C10_SCGrammar.c10_scg_decl_ok d /\ Proofs.C10_SCGrammar.decl_top d = true) dps ->
+    exists n : nat,
+      c10_sc_recognise (lit "package object " ++ last ++ lit " {" ++ sc_nl ++ sc_nl ++ List.concat (map sc_render_decl das) ++ lit "}" ++ sc_nl ++
+                        lit "package " ++ last ++ lit " {" ++ sc_nl ++ sc_nl ++ List.concat (map sc_render_decl dps) ++ lit "}" ++ sc_nl) = Some n /\
+      (List.length das + List.length dps <= n)%nat.
+Proof. exact Proofs.C10_SCGrammarFile.sc_dotless_decls_recognised. Qed.
+Print Assumptions C10_sc_layout_grammar_dotless.
+
 (* Whole files, from the IR: for every program of dom_C10 and every admissible configuration (the hypotheses of C10_lex_scala),
    strengthened by what the grammar needs -
      c10_scg_cfg_ok: every type_mappings value is the text of a type of the grammar (TyText), and the package name is a QualId:
@@ -992,15 +1011,15 @@ Print Assumptions C10_sc_layout_grammar.
        serde(default) stands only on Option fields (the finding class C10-scala-default, `x: T = _`, is outside); the content key of
        a tagged enum, printed as the parameter name of every variant with a payload, is an identifier that is not a reserved word
        (the finding classes C10-scala-content-key, content = "my-key", and C10-scala-keyword-name are outside);
-     c10_scg_toplevel_ok: the package name has a dot, or nothing is written into the package-object section (no alias, no unsigned
-       integer anywhere: the finding class C10-scala-toplevel-alias is outside) -
-   the recogniser accepts the generated file: version header, package clause, package object with the helper aliases and the
-   aliases, packaging with the case classes, plain classes, sealed traits and companion objects; it finds at least one definition
-   per written item (Scala writes no constants). *)
+   (no hypothesis on the shape of the package name any more: since the /repo fix of C10-scala-toplevel-alias a name without a dot
+   opens `package object <name> {` / `package <name> {` as well, only the package clause `package <parent>` is missing) -
+   the recogniser accepts the generated file: version header, package clause (when the name has a parent), package object with
+   the helper aliases and the aliases, packaging with the case classes, plain classes, sealed traits and companion objects; it
+   finds at least one definition per written item (Scala writes no constants). *)
 Theorem C10_grammar_scala :
   forall (uc : unicode) (cfg : sc_config) (pd : parsed) (text : str),
     Proofs.C10_SC.c10_sc_cfg_ok cfg = true -> Proofs.C10_SCGrammarFile.c10_scg_cfg_ok cfg ->
-    dom_C10 CSC pd = true -> Proofs.C10_SCGrammarFile.c10_scg_dom pd -> Proofs.C10_SCGrammarFile.c10_scg_toplevel_ok cfg pd ->
+    dom_C10 CSC pd = true -> Proofs.C10_SCGrammarFile.c10_scg_dom pd ->
     sc_generate uc cfg pd = Ok text ->
     exists n : nat, c10_sc_recognise text = Some n /\
                     (List.length (p_aliases pd) + List.length (p_structs pd) + List.length (p_enums pd) <= n)%nat.
@@ -1009,7 +1028,8 @@ Print Assumptions C10_grammar_scala.
 
 (* The same with the grammar domain spelled as "in no recorded finding class": for every program of dom_C10 that is in no class of
    known_C10 (C10-scala-default, C10-digit-name) and in no class of known_C10_sc_grammar (C10-scala-keyword-name,
-   C10-scala-toplevel-alias, C10-scala-content-key) - the two class functions the check evaluates on every case - and whose Scala
+   C10-scala-content-key; C10-scala-toplevel-alias is repaired and no class any more) - the two class functions the check evaluates
+   on every case - and whose Scala
    type overrides are types of the grammar (c10_scg_overrides_ok), under an admissible configuration whose type_mappings values are
    types of the grammar and whose package name is a QualId, the recogniser accepts the generated file. *)
 Theorem C10_grammar_scala_classes :
@@ -1025,7 +1045,7 @@ Print Assumptions C10_grammar_scala_classes.
 
 (* The same with COMPUTABLE hypotheses only: every type_mappings value and every Scala type override is a name of the grammar
    (identifier-shaped, not a reserved word: String, Instant, BigInt ...), the package name splits at its dots into such names; the
-   program is in dom_C10 and in none of the five finding classes. *)
+   program is in dom_C10 and in none of the four finding classes. *)
 Theorem C10_grammar_scala_simple :
   forall (uc : unicode) (cfg : sc_config) (pd : parsed) (text : str),
     Proofs.C10_SC.c10_sc_cfg_ok cfg = true -> Proofs.C10_SCGrammarFile.c10_scg_cfg_simple cfg = true -> dom_C10 CSC pd = true ->
@@ -1048,7 +1068,6 @@ Print Assumptions C10_grammar_scala_simple.
 Theorem C10_grammar_scala_witness :
   Proofs.C10_SC.c10_sc_cfg_ok Proofs.C10_SCGrammarFile.g_cfg = true /\ Proofs.C10_SCGrammarFile.c10_scg_cfg_ok Proofs.C10_SCGrammarFile.g_cfg /\
   dom_C10 CSC Proofs.C10_SCGrammarFile.g_prog = true /\ Proofs.C10_SCGrammarFile.c10_scg_dom Proofs.C10_SCGrammarFile.g_prog /\
-  Proofs.C10_SCGrammarFile.c10_scg_toplevel_ok Proofs.C10_SCGrammarFile.g_cfg Proofs.C10_SCGrammarFile.g_prog /\
   known_C10 CSC (sc_package Proofs.C10_SCGrammarFile.g_cfg) Proofs.C10_SCGrammarFile.g_prog = [] /\
   known_C10_sc_grammar (sc_package Proofs.C10_SCGrammarFile.g_cfg) Proofs.C10_SCGrammarFile.g_prog = [] /\
   sc_generate uc_exec Proofs.C10_SCGrammarFile.g_cfg Proofs.C10_SCGrammarFile.g_prog = Ok Proofs.C10_SCGrammarFile.g_text /\
@@ -1078,19 +1097,23 @@ Theorem C10_scala_keyword_name_refuted :
 Proof. exact Proofs.C10_SCGrammarFile.scala_keyword_name_refuted. Qed.
 Print Assumptions C10_scala_keyword_name_refuted.
 
-(* C10-scala-toplevel-alias: under the package name `p` (no dot) an alias and a struct with an unsigned field are in dom_C10, in no
-   class of known_C10, in the class C10-scala-toplevel-alias; the file starts with `type UByte = Byte` at the top level of the
-   compilation unit - the word `package` occurs nowhere in it -, is lexically balanced and rejected by the recogniser (Scala 2
-   admits only classes, objects, traits, imports and packagings there) *)
-Theorem C10_scala_toplevel_alias_refuted :
-  exists text, Proofs.C10_SC.c10_sc_cfg_ok Proofs.C10_SCGrammarFile.t_cfg = true /\ dom_C10 CSC Proofs.C10_SCGrammarFile.t_prog = true /\
-    known_C10 CSC (sc_package Proofs.C10_SCGrammarFile.t_cfg) Proofs.C10_SCGrammarFile.t_prog = [] /\
-    known_C10_sc_grammar (sc_package Proofs.C10_SCGrammarFile.t_cfg) Proofs.C10_SCGrammarFile.t_prog = ["C10-scala-toplevel-alias"%string] /\
-    sc_generate uc_exec Proofs.C10_SCGrammarFile.t_cfg Proofs.C10_SCGrammarFile.t_prog = Ok text /\
-    starts_with (lit "type UByte = Byte") text = true /\ contains_sub (lit "type Al = Vector[UInt]") text = true /\
-    contains_sub (lit "package") text = false /\ good_C10_lex CSC text = true /\ c10_sc_recognise text = None.
-Proof. exact Proofs.C10_SCGrammarFile.scala_toplevel_alias_refuted. Qed.
-Print Assumptions C10_scala_toplevel_alias_refuted.
+(* C10-scala-toplevel-alias (fixed in /repo: scala.rs begin_package_object / begin_package always open a block named by the last
+   segment of the package name, end_package_object / end_package always close it) as a regression pin: under the package name `p`
+   (no dot; the configuration meets the computable hypotheses of C10_grammar_scala_simple) the former witness - an alias and a
+   struct with an unsigned field - is in dom_C10 and in no finding class, and gives exactly the file t_text: `package object p {`
+   around the four helper aliases and `type Al = Vector[UInt]`, `package p {` around the case class; it is lexically balanced and
+   the recogniser accepts it with 6 definitions *)
+Theorem C10_scala_toplevel_alias_fixed :
+  Proofs.C10_SC.c10_sc_cfg_ok Proofs.C10_SCGrammarFile.t_cfg = true /\ Proofs.C10_SCGrammarFile.c10_scg_cfg_simple Proofs.C10_SCGrammarFile.t_cfg = true /\
+  contains_char sc_ch_dot (sc_package Proofs.C10_SCGrammarFile.t_cfg) = false /\
+  dom_C10 CSC Proofs.C10_SCGrammarFile.t_prog = true /\
+  known_C10 CSC (sc_package Proofs.C10_SCGrammarFile.t_cfg) Proofs.C10_SCGrammarFile.t_prog = [] /\
+  known_C10_sc_grammar (sc_package Proofs.C10_SCGrammarFile.t_cfg) Proofs.C10_SCGrammarFile.t_prog = [] /\
+  Proofs.C10_SCGrammarFile.c10_scg_overrides_simple Proofs.C10_SCGrammarFile.t_prog = true /\
+  sc_generate uc_exec Proofs.C10_SCGrammarFile.t_cfg Proofs.C10_SCGrammarFile.t_prog = Ok Proofs.C10_SCGrammarFile.t_text /\
+  good_C10_lex CSC Proofs.C10_SCGrammarFile.t_text = true /\ c10_sc_recognise Proofs.C10_SCGrammarFile.t_text = Some 6%nat.
+Proof. exact Proofs.C10_SCGrammarFile.scala_toplevel_alias_fixed. Qed.
+Print Assumptions C10_scala_toplevel_alias_fixed.
 
 (* C10-scala-content-key: a tagged enum with content = "my-content" and a tuple variant is in dom_C10 (the key is key-shaped), in
    no class of known_C10, in the class C10-scala-content-key; its file has `case class A(my-content: String) extends E {`, is
